@@ -329,7 +329,7 @@ def rolling_mult(n, w):
     return [1, int(m.shape[0])] + [int(v) for v in mi.flatten()], exact
 
 
-def lp_observe(x, pad):
+def lp_observe(x, pad, fac=(0.1, 0.15)):
     """smooth.lp with the external frequency-domain filter replaced by a recording identity"""
     from ibldsp import smooth
     rec = {}
@@ -342,14 +342,14 @@ def lp_observe(x, pad):
     smooth.ft = types.SimpleNamespace(lp=fake_lp)
     try:
         xa = np.array(x, dtype=np.int64)
-        out = smooth.lp(xa, [0.1, 0.15], pad=pad)
+        out = smooth.lp(xa, list(fac), pad=pad)
     finally:
         smooth.ft = orig
     if not (isinstance(out, np.ndarray) and out.ndim == 1):
         raise BadOutput("smooth.lp returned %s" % (type(out).__name__ if not isinstance(out, np.ndarray) else "shape %s" % (out.shape,)))
     unchanged([np.array(x, dtype=np.int64)], [xa], "smooth.lp")
     padded = rec["padded"]
-    if rec["args"] != (1.0, [0.05, 0.075]):
+    if rec["args"] != (1.0, [float(fac[0]) / 2, float(fac[1]) / 2]):
         raise ValueError("ft.lp called with si, b = %r (expected 1, fac / 2)" % (rec["args"],))
     lpad = (len(padded) - len(x)) // 2
     return [int(lpad), len(padded)] + [int(v) for v in padded] + [len(out)] + [int(v) for v in out]
@@ -520,6 +520,18 @@ def cadzow_oracle(ctx, kind, ncol, nrow, sites, meas, full=None, light=False):
         if not en < 1e-8:
             ctx.fail("cadzow.denoise(niter=%d) at full rank does not return its input (max err %g)" % (niter, en),
                      dict(desc, niter=niter), {"kind": "cadzow_identity_niter", "layout": kind})
+    if len(sites) % 4 == 0:
+        # other values of imax: 1, beyond the number of frequencies (clipped), 0 (falsy: all frequencies)
+        for im, nproc in ((1, 1), (nf + 2, nf), (0, nf)):
+            try:
+                with np.errstate(all="ignore"):
+                    oi = denoise_checked(W, x, y, r=full, imax=im)
+                if not (np.allclose(oi[:, :nproc], W[:, :nproc], atol=1e-8) and np.all(oi[:, nproc:] == 0)):
+                    ctx.fail("cadzow.denoise(imax=%d): processed frequencies differ from the input or others are not zero" % im,
+                             dict(desc, imax=im), {"kind": "cadzow_identity_imax", "layout": kind})
+            except Exception as e:  # noqa
+                ctx.fail("cadzow.denoise(imax=%d): %s" % (im, e if isinstance(e, BadOutput) else repr(e)), dict(desc, imax=im),
+                         {"kind": "cadzow_exception", "layout": kind})
     if not (np.allclose(out_imax[:, :3], W[:, :3], atol=1e-8) and np.all(out_imax[:, 3:] == 0)):
         ctx.fail("cadzow.denoise(imax=3): processed frequencies differ from the input or others are not zero",
                  desc, {"kind": "cadzow_identity_imax", "layout": kind})
@@ -896,6 +908,110 @@ def _run(ctx):
     meas["rolling_values_vs_model_max_abs_err"] = worst
     samples.append({"fn": "rolling_window", "n": 8, "window_len": 3, "taps_of_outputs": ex.run_many([[7, 8, 3]])[0][2:]})
 
+    # ---- input dtype / container as a dimension of every smoother: constants come back unchanged TO ROUNDING
+    # (never truncated: the result is floating point whatever the input dtype) and the length is kept; the result
+    # does not depend on the dtype the same numbers are stored in
+    DT = ["int16", "int32", "int64", "uint8", "float32", "list_int", "float64"]
+    worst_dt = 0.0
+    for dt in DT:
+        consts = [1, 2, 3, 7, 100, 255] + ([] if dt == "uint8" else [-1, -7, -100]) + ([] if dt in ("uint8", "int16") else [12345])
+
+        def mk(vals, dt=dt):
+            return [int(v) for v in vals] if dt == "list_int" else np.array(vals, dtype=dt)
+        for win in WINDOWS:
+            for w in ((3, 4, 5, 7, 8, 11, 16) if T else (3, 4, 7, 11)):
+                for n in ((w, w + 3, 30) if T else (w, 30)):
+                    for c in consts:
+                        desc = {"fn": "rolling_window", "n": n, "window_len": w, "window": win, "dtype": dt, "constant": c}
+                        count("smoother_dtype_cases")
+                        try:
+                            out = smooth.rolling_window(mk([c] * n), window_len=w, window=win)
+                            out = as_array(out, (n,), "rolling_window", kinds="fiu")
+                            if out.dtype.kind != "f":
+                                raise BadOutput("rolling_window returned dtype %s (values %s for the constant %d): the smoothed "
+                                                "values are cast back / truncated" % (out.dtype, sorted(set(out.tolist()))[:3], c))
+                        except Exception as e:  # noqa
+                            ctx.fail("rolling_window on %s input: %s" % (dt, e if isinstance(e, BadOutput) else repr(e)), desc,
+                                     {"kind": "rolling_dtype"})
+                            continue
+                        err = float(np.max(np.abs(out - c)))
+                        worst_dt = max(worst_dt, err / (1 + abs(c)))
+                        if err > 1e-9 * (1 + abs(c)):
+                            ctx.fail("rolling_window does not return the constant %d unchanged on %s input (got %r)"
+                                     % (c, dt, float(out[np.argmax(np.abs(out - c))])), desc, {"kind": "rolling_constant"})
+                # same numbers, other dtype: same result
+                vals = [rng.randrange(0, 100) for _ in range(w + 9)]
+                try:
+                    a = as_array(smooth.rolling_window(mk(vals), window_len=w, window=win), (w + 9,), "rolling_window", kinds="f")
+                    b = smooth.rolling_window(np.array(vals, dtype=float), window_len=w, window=win)
+                    if not np.allclose(a, b, rtol=0, atol=1e-9 * 100):
+                        ctx.fail("rolling_window: the result depends on the input dtype (%s vs float64)" % dt,
+                                 {"fn": "rolling_window", "n": w + 9, "window_len": w, "window": win, "dtype": dt, "x": vals},
+                                 {"kind": "rolling_dtype"})
+                except Exception as e:  # noqa
+                    ctx.fail("rolling_window on %s input: %s" % (dt, e if isinstance(e, BadOutput) else repr(e)),
+                             {"fn": "rolling_window", "n": w + 9, "window_len": w, "window": win, "dtype": dt, "x": vals},
+                             {"kind": "rolling_dtype"})
+        if dt != "list_int":          # smooth.lp reads ts.shape: arrays only
+            for n in (1, 2, 5, 16, 33):
+                for pad in (0.0, 0.2, 1.0):
+                    for c in consts[:6]:
+                        desc = {"fn": "smooth.lp", "n": n, "pad": pad, "dtype": dt, "constant": c}
+                        count("smoother_dtype_cases")
+                        try:
+                            out = as_array(smooth.lp(mk([c] * n), [0.1, 0.15], pad=pad), (n,), "smooth.lp", kinds="f")
+                        except Exception as e:  # noqa
+                            ctx.fail("smooth.lp on %s input: %s" % (dt, e if isinstance(e, BadOutput) else repr(e)), desc,
+                                     {"kind": "lp_exception"})
+                            continue
+                        if float(np.max(np.abs(out - c))) > 1e-9 * (1 + abs(c)):
+                            ctx.fail("smooth.lp does not return the constant %d unchanged on %s input" % (c, dt), desc,
+                                     {"kind": "lp_constant"})
+        # Savitzky-Golay: integer-typed abscissae and samples of a polynomial with integer coefficients
+        for window, order in ((3, 1), (5, 2), (7, 3)):
+            xi = [3 * i + (i % 3) for i in range(window + 6)]
+            if dt == "uint8":
+                cf = [2, 1] if order == 1 else [5, 0, 0]
+            else:
+                cf = [rng.randrange(-2, 3) for _ in range(order + 1)]
+            yi = [sum(cc * xx ** j for j, cc in enumerate(cf)) for xx in xi]
+            if dt in ("uint8", "int16") and (max(map(abs, yi)) > 250 or min(yi) < 0):
+                cf = [7]
+                yi = [7] * len(xi)
+            # abscissae: same dtype as the samples; for unsigned samples also signed abscissae, and uint64 sample indices
+            for xdt in ([dt] if dt != "uint8" else ["int64", "uint8", "uint64", "uint32"]):
+                desc = {"fn": "non_uniform_savgol", "window": window, "polynom": order, "x": xi, "y": yi, "dtype": dt,
+                        "x_dtype": xdt}
+                count("smoother_dtype_cases")
+                try:
+                    with np.errstate(all="ignore"):
+                        import warnings
+                        with warnings.catch_warnings():
+                            warnings.simplefilter("ignore")
+                            out = smooth.non_uniform_savgol(mk(xi) if xdt == dt else np.array(xi, dtype=xdt), mk(yi), window, order)
+                    out = as_array(out, (len(xi),), "non_uniform_savgol", kinds="f")
+                    if not float(np.max(np.abs(out - np.array(yi, dtype=float)))) <= 1e-7 * (1 + max(map(abs, yi))):
+                        unsigned = xdt.startswith("uint")
+                        ctx.fail("non_uniform_savgol does not reproduce a polynomial on %s abscissae / %s samples" % (xdt, dt),
+                                 desc, {"kind": "savgol_unsigned_abscissae" if unsigned else "savgol_polynomial"})
+                except Exception as e:  # noqa
+                    ctx.fail("non_uniform_savgol on %s abscissae / %s samples: %s" % (xdt, dt, e if isinstance(e, BadOutput) else repr(e)),
+                             desc, {"kind": "savgol_unsigned_abscissae" if xdt.startswith("uint") else "savgol_exception"})
+        if dt != "list_int":
+            sig = mk([5 + (i % 4) for i in range(40)])
+            desc = {"fn": "smooth_interpolate_savgol", "n": 40, "dtype": dt, "window": 7, "order": 2, "nan_positions": [],
+                    "signal": [float(v) for v in np.asarray(sig)]}
+            try:
+                out = smooth.smooth_interpolate_savgol(sig, window=7, order=2)
+                out = as_array(out, (40,), "smooth_interpolate_savgol", kinds="f")
+                ref = smooth.smooth_interpolate_savgol(np.asarray(sig, dtype=float), window=7, order=2)
+                if not (np.all(np.isfinite(out)) and np.allclose(out, ref, atol=1e-9)):
+                    ctx.fail("smooth_interpolate_savgol: the result depends on the input dtype (%s)" % dt, desc,
+                             {"kind": "savgol_nan_fill"})
+            except Exception as e:  # noqa
+                ctx.fail("smooth_interpolate_savgol on %s input: %s" % (dt, e if isinstance(e, BadOutput) else repr(e)), desc,
+                         {"kind": "savgol_nan_exception"})
+    meas["smoother_constant_any_dtype_max_rel_err"] = worst_dt
     # parameters otherwise left at their defaults / other accepted argument kinds
     for wn in WINDOWS:
         xl = [float(rng.randrange(-9, 10)) for _ in range(17)]
@@ -940,7 +1056,7 @@ def _run(ctx):
             m, e = float_me(pad)
             count("lp_cases")
             try:
-                obs = lp_observe(x, pad)
+                obs = lp_observe(x, pad, fac=[(0.1, 0.15), (0.0, 0.4), (0.25, 0.5), (0.02, 0.03)][(n + len(str(pad))) % 4])
                 oc = smooth.lp(np.full(n, 3.0), [0.1, 0.15], pad=pad)
                 oc2 = smooth.lp(np.full(n, -2.5), [0.0, 0.4], pad=pad)
             except Exception as ex_:  # noqa
